@@ -318,11 +318,15 @@ class Scenario:
         raise Unsupported('T::default')
 
     def method_T(self, E, key, vals):
+        """T's own trait methods: values compare by their id (the native Node does the same)"""
         self.trace.append(['tmethod', key, [v.id if isinstance(v, TVal) else None for v in vals]])
-        if key.endswith('::eq'):
-            return vals[0] == vals[1]
-        if key.endswith('::ne'):
-            return vals[0] != vals[1]
+        m = key.split('::')[-1]
+        if m in ('eq', 'ne', 'lt', 'le', 'gt', 'ge', 'cmp', 'partial_cmp') and len(vals) >= 2 and all(isinstance(v, TVal) for v in vals[:2]):
+            x, y = vals[0].id, vals[1].id
+            if m in ('cmp', 'partial_cmp'):
+                o = Agg('Ordering', 'Less' if x < y else ('Equal' if x == y else 'Greater'))
+                return o if m == 'cmp' else some(o)
+            return {'eq': x == y, 'ne': x != y, 'lt': x < y, 'le': x <= y, 'gt': x > y, 'ge': x >= y}[m]
         raise Unsupported('T method %s' % key)
 
     # ------------------------------------------------------------ ledger queries
@@ -546,6 +550,30 @@ class Scenario:
             self.box2obj[p.obj] = idx
             E.heap[p.obj].meta['label'] = ' (RcBox of object %d)' % idx
             self.set_handle(op['as'], 'rc', v, idx)
+        elif k in ('new_from', 'new_from_box'):
+            idx = op['obj']
+            self.payloads[idx] = Payload(idx, idx)
+            if k == 'new_from':
+                v = E.run_body(self.body('Rc', 'From<T>', 'from'), [TVal(idx)], RC)
+            else:
+                bo = E.new_obj('box', TVal(idx), {'label': ' (Box<T> of the caller)'})
+                E.alloc_events += 1
+                v = E.run_body(self.body('Rc', 'From<Box>', 'from'), [Ptr(bo)], RC)
+                if E.heap[bo].live:
+                    raise Violation('C07', 'from-box-leaks-box', 'Rc::from(Box<T>) did not release the box allocation')
+            p = self.ptr_of(v)
+            self.objs[idx] = ObjInfo(idx, p.obj)
+            self.box2obj[p.obj] = idx
+            E.heap[p.obj].meta['label'] = ' (RcBox of object %d)' % idx
+            self.set_handle(op['as'], 'rc', v, idx)
+        elif k in ('eq', 'ne', 'lt', 'le', 'gt', 'ge', 'cmp', 'partial_cmp'):
+            a = self.h(op['a'], 'rc')
+            b = self.h(op['b'], 'rc')
+            tr = {'eq': 'PartialEq', 'ne': 'PartialEq', 'cmp': 'Ord'}.get(k, 'PartialOrd')
+            r = self.call('Rc', tr, k, a['ptr'], b['ptr'])
+            if isinstance(r, Agg) and r.name == 'Option':
+                r = r.fields[0]
+            self.obs(op, r.variant if isinstance(r, Agg) else ('true' if r else 'false'))
         elif k == 'clone':
             x = self.h(op['h'], 'rc')
             dead = None
